@@ -4,6 +4,7 @@ usage: seeded.py confirm <worktree> <id> <property>     (demo fails with change,
        seeded.py run <id> [property ...]                (apply patch to /repo, run ./check, undo)"""
 import json, os, subprocess, sys, shutil, re, time
 VERIF = os.path.dirname(os.path.dirname(os.path.abspath(__file__)))
+REPO = os.environ.get('VERIF_REPO', '/repo')      # an evaluation run may use a scratch clone instead of /repo
 
 def sh(cmd, cwd=None, timeout=3600):
     p = subprocess.run(cmd, shell=True, cwd=cwd, capture_output=True, text=True, timeout=timeout)
@@ -36,7 +37,7 @@ def run(sid, props):
     d = os.path.join(VERIF, 'seeded', sid)
     meta = json.load(open(os.path.join(d, 'meta.json')))
     props = props or [meta['breaks_property']]
-    rc, o = sh('git -C /repo apply %s/patch.diff' % d)
+    rc, o = sh('git -C %s apply %s/patch.diff' % (REPO, d))
     if rc != 0:
         print(sid, 'PATCH DOES NOT APPLY', o)
         return
@@ -52,7 +53,7 @@ def run(sid, props):
                 if m and os.path.exists(m.group(1)):
                     res[p].setdefault('obligations', []).append(json.load(open(m.group(1)))['obligation'][:200])
     finally:
-        sh('git -C /repo checkout -- .')
+        sh('git -C %s checkout -- .' % REPO)
     meta.setdefault('check_results', {}).update(res)
     json.dump(meta, open(os.path.join(d, 'meta.json'), 'w'), indent=1)
     for p, r in res.items():
